@@ -394,5 +394,62 @@ theorem main_openInput {ζ τ : Type} (E : MainEnv ζ τ) (ap : Bytes → Bytes)
   simp only [mainRest, hAP, main_loop1_eq, main_loop2_eq, bind, Except.bind, pure, Except.pure]
   simp [mainIn, hArg, h1, hOpen, hAP, main_pureAP, bind, Except.bind, pure, Except.pure, throw, throwThe, MonadExceptOf.throw]
 
+/-- no `-o` (or `-o -`), nothing is a terminal: the mode function writes to standard output itself and nothing is closed or
+    copied afterwards -/
+theorem main_dispatch_stdout {ζ τ : Type} (E : MainEnv ζ τ) (ap : Bytes → Bytes) (a : Args) (hfc : flagCheck a = none)
+    (hArg : ∀ t, E.Arg 0 t = .ok ([], t)) (hSet : ∀ b t, E.SetStdin b t = .ok t) (hFd : ∀ z t, E.Fd z t = .ok (0, t))
+    (hIsT : ∀ n t, E.IsT n t = .ok (false, t)) (hAP : E.AP = main_pureAP ap)
+    (hout : a.output = [] ∨ a.output = [45]) (t0 : τ) :
+    E.run a.output a.decrypt a.encrypt a.passphrase a.armor a.recipients a.recipientsFiles (a.identities.map main_toFlag) t0 =
+      E.mode a E.stdin E.stdout t0 := by
+  rw [main_prefix E a hfc t0]
+  have ho : ((a.output != ([] : List UInt8)) && (a.output != ([45] : List UInt8))) = false := by
+    rcases hout with h | h <;> simp [h]
+  simp only [mainRest, hAP, main_loop1_eq, main_loop2_eq, bind, Except.bind, pure, Except.pure]
+  simp only [mainIn, mainOut, hArg, hSet, hFd, hIsT, ho, bind, Except.bind, pure, Except.pure, bne_self_eq_false,
+    Bool.false_and, Bool.false_eq_true, if_false, Bool.and_false, ite_self]
+  simp only [mainMode, MainEnv.mode, mainEnd3, mainEnd2, mainEnd1, main_len_zero_eq, List.isEmpty_map, bind, Except.bind, pure,
+    Except.pure, Bool.false_eq_true, if_false]
+  by_cases h1 : (a.decrypt && a.identities.isEmpty) = true
+  · simp only [h1, if_true]; cases E.DP E.stdin E.stdout t0 <;> rfl
+  · simp only [h1, if_false, Bool.false_eq_true]
+    by_cases h2 : a.decrypt = true
+    · simp only [h2, if_true]; cases E.DNP (a.identities.map main_toFlag) E.stdin E.stdout t0 <;> rfl
+    · simp only [h2, if_false, Bool.false_eq_true]
+      by_cases h3 : a.passphrase = true
+      · simp only [h3, if_true]; cases E.EP E.stdin E.stdout a.armor t0 <;> rfl
+      · simp only [h3, if_false, Bool.false_eq_true]
+        cases E.ENP a.recipients a.recipientsFiles (a.identities.map main_toFlag) E.stdin E.stdout a.armor t0 <;> rfl
+
+/-- armored encryption from a terminal to a terminal: the mode function writes into a buffer, which is copied to standard
+    output when `main` returns — after everything else, and whatever that copy reports -/
+theorem main_dispatch_buffered {ζ τ : Type} (E : MainEnv ζ τ) (ap : Bytes → Bytes) (a : Args) (hfc : flagCheck a = none)
+    (hArg : ∀ t, E.Arg 0 t = .ok ([], t)) (hSet : ∀ b t, E.SetStdin b t = .ok t) (hFd : ∀ z t, E.Fd z t = .ok (0, t))
+    (hIsT : ∀ n t, E.IsT n t = .ok (true, t)) (hAP : E.AP = main_pureAP ap) (hsame : E.same E.stdin E.stdin = true)
+    (hout : a.output = []) (hd : a.decrypt = false) (harm : a.armor = true) (t0 : τ) :
+    E.run a.output a.decrypt a.encrypt a.passphrase a.armor a.recipients a.recipientsFiles (a.identities.map main_toFlag) t0 =
+      (do let t2 ← E.mode a E.stdin E.bufV t0
+          let c ← E.Cp E.stdout E.bufV t2
+          pure c.2.2) := by
+  rw [main_prefix E a hfc t0]
+  simp only [mainRest, hAP, main_loop1_eq, main_loop2_eq, bind, Except.bind, pure, Except.pure]
+  simp only [mainIn, mainOut, mainOutT, hArg, hSet, hFd, hIsT, hout, hd, harm, hsame, bind, Except.bind, pure, Except.pure,
+    bne_self_eq_false, Bool.false_and, Bool.false_eq_true, if_false, if_true, Bool.and_false, ite_self, Bool.not_true]
+  simp only [mainMode, MainEnv.mode, mainEnd3, mainEnd2, mainEnd1, hd, harm, Bool.false_and, bind, Except.bind, pure,
+    Except.pure, Bool.false_eq_true, if_false, if_true]
+  by_cases h3 : a.passphrase = true
+  · simp only [h3, if_true]
+    first
+      | done
+      | (cases E.EP E.stdin E.bufV true t0 with
+         | error e => rfl
+         | ok t2 => simp only []; first | rfl | (cases E.Cp E.stdout E.bufV t2 <;> rfl))
+  · simp only [h3, if_false, Bool.false_eq_true]
+    first
+      | done
+      | (cases E.ENP a.recipients a.recipientsFiles (a.identities.map main_toFlag) E.stdin E.bufV true t0 with
+         | error e => rfl
+         | ok t2 => simp only []; first | rfl | (cases E.Cp E.stdout E.bufV t2 <;> rfl))
+
 end GoTie
 end AgeModel
